@@ -309,7 +309,7 @@ func init() {
 			}}).FromEntry()
 			r.Check(wit == nil, "BPM."+fn.Name()+":retire-only-with-frame-in-hand", "a page id is recycled / unmapped only for the page in a frame this call took out of the replacer", "retirement without getFrameID: "+w.DescribeWitness(fn, wit))
 		}
-		r.Floor("functions retiring page ids", n, 3)
+		r.Floor("functions retiring page ids", n, 2)
 	})
 
 	reg("C08-R1", "write-ahead at the storage boundary: inside the pool every DiskManager.WritePage of a victim is preceded by LogManager.Flush; a pool flush primitive that does not force the log itself (FlushPage / FlushAllPages / FlushAllDirtyPages) is called from outside the pool only after a log flush in the caller, inside the logging-off start-up window, on a catalog page constant, or from a listed unlogged-index site", func(w *World, r *Report) {
